@@ -97,6 +97,8 @@ func (r *registry) mkPay(kind, tok string) any {
 		return tokStruct{Tok: tok, N: 7}
 	case "errpay":
 		return tokErrPay{Tok: tok}
+	case "actempty": // a payload of the library's own Action type that happens to be empty
+		return flyt.Action("")
 	case "nil":
 		return nil
 	case "nilptr": // typed nils must keep their type through every hand-over
@@ -120,7 +122,7 @@ func (r *registry) mkPay(kind, tok string) any {
 
 func payDesc(kind, tok string) string {
 	switch kind {
-	case "nil", "nilptr", "nilmap", "nilslice":
+	case "nil", "nilptr", "nilmap", "nilslice", "actempty":
 		return kind
 	case "result":
 		return "WR(" + tok + ")"
@@ -161,6 +163,11 @@ func (r *registry) describe(v any) string {
 	switch x := v.(type) {
 	case nil:
 		return "nil"
+	case flyt.Action:
+		if x == "" {
+			return "actempty"
+		}
+		return "?action:" + string(x)
 	case flyt.Result:
 		// a Result where a plain value was expected: marked W(rapped)
 		if x.IsError() {
@@ -240,8 +247,6 @@ func (r *registry) describe(v any) string {
 		return "[" + strings.Join(parts, " ") + "]"
 	case *flyt.SharedStore:
 		return "?store"
-	case flyt.Action:
-		return "?action:" + string(x)
 	}
 	return fmt.Sprintf("?%T", v)
 }
